@@ -103,7 +103,7 @@ PROPS = {
                       "(Verus, unbounded): a 5xx response sent through HttpConn::write_response goes out with the field `connection: close` "
                       "right after the status line / content-type, and the write side is shut down after it.",
         "level_note": "Kani/CBMC trusted; payload strings are 0..2 arbitrary chars (the mapping never inspects them).",
-        "verus": ["conn", "respwrite"],
+        "verus": ["conn", "respwrite", "errresp"],
         "kani": ["c20"],
         "witness": "c20",
         "assumptions": [
@@ -195,7 +195,7 @@ PROPS = {
                       "poll_write is discharged by a complete Kani harness). The body readers are the real functions, re-verified in this unit. "
                       "Not covered: that the peer observes the bytes (kernel), cancellation, that a body read consumes exactly len bytes of "
                       "*this* connection (proved over the reader handed to the body functions, C09).",
-        "verus": ["conn", "respwrite"],
+        "verus": ["conn"],
         "verus_thorough": [],
         "kani": ["c05"],
         "witness": ["cconn"],
@@ -392,6 +392,46 @@ PROPS = {
                         "capture-group boundaries of the regex (only the language and the group count are decided)"],
     },
 }
+
+# ---- attribution of failed obligations in shared units (bin/check)
+# A failed obligation whose clause text carries tags cNN(..) belongs exactly to the tagged properties.  Otherwise it
+# belongs to every property that claims it by a SCOPE pattern for that unit (regex over "item | message | clause"),
+# and, when nobody claims it, to the unit's owner.  A property reports only obligations that belong to it; the rest
+# are listed in its evidence as notes (they are another property's alarm, or an unproved supporting contract).
+UNIT_OWNER = {
+    "time": "C16", "chunked": "C07", "headers": "C14", "copy": "C09", "body": "C09", "conn": "C05", "head": "C01",
+    "parse": "C02", "logset": "C19", "framing": "C03", "respguard": "C06", "respwrite": "C06", "errresp": "C20",
+}
+SCOPE = {
+    # total request reading also needs the parsers to be panic-free
+    "C01": {"parse": [r"\| (precondition not satisfied|possible arithmetic|possible division|index out of bounds|unreachable)"]},
+    "C02": {"head": [r"^fn trim_whitespace \|"]},
+    # a request body is exactly the next N bytes; coded bodies are refused when read
+    "C03": {"conn": [r"^impl HttpConn / fn read_request \|"],
+            "body": [r"^fn read_http_body_to_(vec|file) \|"]},
+    "C06": {"copy": [r"^fn copy_async \|"], "chunked": [r"^fn copy_chunked_async \|"]},
+    "C09": {"conn": [r"^fn (read_http_|copy_async)"], "copy": [r"."]},
+}
+
+
+# scenarios of a bounded stand-in shared by several properties: which failing inputs belong to which property
+WITNESS_SCOPE = {
+    "cconn": {"C09": r"^upload ", "C08": r"^bodyfile ", "C05": r"^pipeline "},
+}
+
+
+def attribute(unit_name, ob_id):
+    """-> set of property ids a failed obligation of `unit_name` belongs to"""
+    import re as _re
+    tags = set("C" + t for t in _re.findall(r"\bc(\d\d)\(", ob_id))
+    if tags:
+        return tags
+    who = set()
+    for pid, m in SCOPE.items():
+        for pat in m.get(unit_name, []):
+            if _re.search(pat, ob_id):
+                who.add(pid)
+    return who or {UNIT_OWNER.get(unit_name, "?")}
 
 NOT_APPLICABLE = {
     "C10": "about destructor execution at scope exit, future cancellation and panic (Rust drop semantics + temp-file's Drop + the file system); no statement in /repo to attach an obligation to, and neither verifier models drop timing or the file system",
